@@ -49,6 +49,7 @@ import Aergo.Lemmas.SyncProgress
 import Aergo.Lemmas.SyncGood
 import Aergo.Lemmas.SyncWitness
 import Aergo.Lemmas.SyncRecv
+import Aergo.Lemmas.SyncWire
 
 namespace Aergo.Props.C17
 open Aergo.Sync
@@ -1329,5 +1330,469 @@ example :
   refine ⟨⟨_, rfl, by decide⟩, ?_⟩
   show Sys.feed start handle (Sys.feed start handle Sys.init [⟨.syncStart, 0, .sched⟩]) _ = _
   decide
+
+/-! ## Round 3: block ids, the exchanges below the finder, parent links across chunks
+
+What the finder is told is produced by code below the syncer: the serving node's `findAncestor` and
+handler, and the requesting node's `AncestorReceiver` / `BlockHashByNoReceiver`. These are now part of the
+model (`findAncestor`, `serveAncestor`, `ancRecv`, `hbnRecv`, `probeOf`, `lightExchange`, `probeX`) and of the
+theorems, and the finder is modelled with the block ids it hands on (`finderId`). -/
+
+/-- **The serving node names only a listed id that is on its MAIN chain, and the first such.** The answer
+`(h, n)` of `findAncestor` is one of the ids it was handed, the node stores that block at height `n`, it is
+its main-chain block at `n`, and no id listed before it is on its main chain — blocks it stores on a side
+branch are skipped. -/
+theorem find_ancestor_first_on_main (store main : Nat → Option Nat) (hs : List Nat) (h n : Nat)
+    (hf : findAncestor store main hs = some (h, n)) :
+    h ∈ hs ∧ store h = some n ∧ main n = some h ∧
+    ∃ pre post, hs = pre ++ h :: post ∧ ∀ x, x ∈ pre → ∀ m, store x = some m → main m ≠ some x := by
+  obtain ⟨pre, post, e, h1, h2, h3⟩ := findAncestor_some store main hs h n hf
+  exact ⟨by rw [e]; simp, h1, h2, pre, post, e, h3⟩
+
+/-- It answers "none" exactly when no listed id is on its main chain. -/
+theorem find_ancestor_none_iff (store main : Nat → Option Nat) (hs : List Nat) :
+    findAncestor store main hs = none ↔ ∀ x, x ∈ hs → ∀ m, store x = some m → main m ≠ some x :=
+  ⟨findAncestor_none store main hs, findAncestor_eq_none store main hs⟩
+
+/-- A side-branch copy is skipped (test): id 7 is stored at height 3 but the main chain has id 9 there;
+id 5 is the main-chain block at height 2. -/
+example : findAncestor (fun h => if h = 7 then some 3 else if h = 5 then some 2 else none)
+    (fun n => if n = 3 then some 9 else if n = 2 then some 5 else none) [7, 5] = some (5, 2) := by decide
+
+/-- What the two chains must satisfy for the exchange theorems: ids are not the nil hash; the serving node
+stores its main-chain blocks at their heights; an id determines the height of its block (the same id is the
+same block on both nodes); the serving node's main chain is at least as long as the local one; agreement of
+the two main chains is downward closed. -/
+structure Chains (best : Nat) (lm : Nat → Nat) (store main : Nat → Option Nat) : Prop where
+  ids_pos : ∀ n, lm n ≠ 0
+  stored : ∀ n h, main n = some h → store h = some n
+  bind : ∀ a n, a ≤ best → store (lm a) = some n → n = a
+  remote_long : ∀ i, i ≤ best → (main i).isSome = true
+  mono : ∀ i j, i ≤ j → j ≤ best → main j = some (lm j) → main i = some (lm i)
+
+private theorem probeX_same_iff {best : Nat} {lm : Nat → Nat} {store main : Nat → Option Nat}
+    (hc : Chains best lm store main) (i : Nat) (hi : i ≤ best) :
+    probeX best lm main i = .same ↔ main i = some (lm i) := by
+  unfold probeX localOf probeOf hbnRecv
+  simp only [hi, if_true]
+  cases hm : main i with
+  | none => have := hc.remote_long i hi; rw [hm] at this; simp at this
+  | some h' =>
+    simp
+    by_cases h0 : h' = 0
+    · simp [h0]
+      intro h; exact hc.ids_pos i h.symm
+    · simp [h0]
+
+private theorem probeX_ok {best : Nat} {lm : Nat → Nat} {store main : Nat → Option Nat}
+    (hc : Chains best lm store main) (i : Nat) (hi : i ≤ best) :
+    probeX best lm main i = .same ∨ probeX best lm main i = .diff := by
+  unfold probeX localOf probeOf hbnRecv
+  simp only [hi, if_true]
+  cases hm : main i with
+  | none => have := hc.remote_long i hi; rw [hm] at this; simp at this
+  | some h' =>
+    simp
+    by_cases h0 : h' = 0
+    · simp [h0]
+    · simp [h0]
+      by_cases he : h' = lm i
+      · simp [he]
+      · simp [he]
+
+private theorem probeX_above {best : Nat} {lm : Nat → Nat} {main : Nat → Option Nat} (i : Nat) (hi : best < i) :
+    probeX best lm main i = .localErr := by
+  unfold probeX localOf probeOf
+  have : ¬ i ≤ best := by omega
+  simp [this]
+
+/-- **An answered ancestor exchange tells the finder the truth, in ids.** When the serving node's chain
+service answers and the receiver is in time: a named block `(h, n)` is the id of the LOCAL main chain at an
+anchor height `n`, it is on the serving node's MAIN chain there, and no higher anchor is shared; and
+"none" is answered only when no anchor at all is shared. (The side-branch blocks the serving node stores
+play no role: `find_ancestor_first_on_main`.) -/
+theorem light_exchange_truthful (best : Nat) (lm : Nat → Nat) (store main : Nat → Option Nat)
+    (hc : Chains best lm store main) :
+    (∀ h n, lightExchange true best lm store main = some (some (h, n)) →
+        n ∈ anchors best ∧ h = lm n ∧ main n = some h ∧ ∀ a, a ∈ anchors best → n < a → main a ≠ some (lm a)) ∧
+    (lightExchange true best lm store main = some none → ∀ a, a ∈ anchors best → main a ≠ some (lm a)) := by
+  unfold lightExchange serveAncestor ancRecv
+  constructor
+  · intro h n hx
+    cases hf : findAncestor store main ((anchors best).map lm) with
+    | none => simp [hf] at hx
+    | some p =>
+      obtain ⟨h', n'⟩ := p
+      simp [hf] at hx
+      obtain ⟨rfl, rfl⟩ := hx
+      obtain ⟨pre, post, e, hst, hmain, hpre⟩ := findAncestor_some store main _ h' n' hf
+      obtain ⟨l1, l2, eanc, e1, e2⟩ := List.map_eq_append_iff.mp e
+      cases l2 with
+      | nil => simp at e2
+      | cons a0 l2' =>
+        simp at e2
+        obtain ⟨ea0, _⟩ := e2
+        have ha0mem : a0 ∈ anchors best := by rw [eanc]; simp
+        have ha0 : n' = a0 := hc.bind a0 n' (anchors_le best a0 ha0mem) (by rw [ea0]; exact hst)
+        subst ha0
+        refine ⟨ha0mem, ea0.symm, hmain, ?_⟩
+        intro a ha hlt hshared
+        have hpw := anchors_pairwise best
+        rw [eanc, List.pairwise_append] at hpw
+        obtain ⟨_, hp2, _⟩ := hpw
+        rw [List.pairwise_cons] at hp2
+        have hal1 : a ∈ l1 := by
+          rw [eanc] at ha
+          simp at ha
+          rcases ha with ha | ha | ha
+          · exact ha
+          · omega
+          · have := hp2.1 a ha; omega
+        have hpm : lm a ∈ pre := by rw [← e1]; exact List.mem_map_of_mem hal1
+        exact hpre (lm a) hpm a (hc.stored a (lm a) hshared) hshared
+  · intro hx a ha hshared
+    cases hf : findAncestor store main ((anchors best).map lm) with
+    | some p => obtain ⟨h', n'⟩ := p; simp [hf] at hx
+    | none =>
+      exact findAncestor_none store main _ hf (lm a) (List.mem_map_of_mem ha) a (hc.stored a (lm a) hshared) hshared
+
+/-- What makes a list of light-scan replies *truthful* for the finder: every block it names is, at the named
+height, the block of the local main chain and of the remote main chain; and "none" is said only when the
+lowest anchor is not shared. -/
+def TruthfulReplies (best : Nat) (localMain remoteMain : Nat → Option Nat) (replies : List (Option (Nat × Nat)))
+    (probe : Nat → Probe) : Prop :=
+  (∀ h n, some (h, n) ∈ replies → localMain n = some h ∧ remoteMain n = some h) ∧
+  (none ∈ replies → probe (lastAnchorOf best) ≠ .same)
+
+private theorem fullscan_sound (probe : Nat → Probe) (la a : Nat) (h : fullscan probe la = .ancestor a) :
+    probe a = .same := by
+  unfold fullscan at h
+  split at h <;> simp at h
+  rename_i a' hbs
+  subst h
+  exact (ancestor_sound probe 0 _ _ hbs).2.2
+
+/-- **The block handed on is a block of the node's OWN main chain that the remote main chain has — in ids**
+(`_partial`: every light-scan reply the finder gets is truthful). The full scan hands on the local id at a
+height the peer confirmed; the light scan hands on the peer's `BlockInfo` unchanged, so there the statement
+rests on the reply. Probes: "same" only where both main chains carry the same id. -/
+theorem finder_id_own_main_chain_partial (fullOnly : Bool) (best target : Nat) (localMain remoteMain : Nat → Option Nat)
+    (replies : List (Option (Nat × Nat))) (probe : Nat → Probe) (h a : Nat)
+    (hprobe : ∀ i, probe i = .same → ∃ x, localMain i = some x ∧ remoteMain i = some x)
+    (htruth : TruthfulReplies best localMain remoteMain replies probe)
+    (hf : finderId fullOnly best target localMain replies probe = .ancestor h a) :
+    localMain a = some h ∧ remoteMain a = some h := by
+  have full : ∀ la, (match fullscan probe la with
+      | .ancestor a => (match localMain a with | some h => FinderOutId.ancestor h a | none => .localErr)
+      | .noAncestor => .noAncestor | .alreadyDone => .alreadyDone | .timeout => .timeout
+      | .localErr => .localErr | .remoteErr => .remoteErr) = .ancestor h a →
+      localMain a = some h ∧ remoteMain a = some h := by
+    intro la hx
+    split at hx <;> try simp at hx
+    rename_i a' hfs
+    split at hx <;> simp at hx
+    rename_i h' hl
+    obtain ⟨rfl, rfl⟩ := hx
+    obtain ⟨x, h1, h2⟩ := hprobe _ (fullscan_sound probe la _ hfs)
+    rw [hl] at h1; simp at h1; subst h1
+    exact ⟨hl, h2⟩
+  unfold finderId at hf
+  simp only at hf
+  split at hf
+  · exact full _ hf
+  · split at hf
+    · simp at hf
+    · rename_i h' n' hfind
+      split at hf
+      · simp at hf
+      · simp at hf; obtain ⟨rfl, rfl⟩ := hf
+        exact htruth.1 _ _ (List.mem_of_find?_eq_some hfind)
+    · exact full _ hf
+
+/-- **Without truthful replies the id is NOT checked** (honest negative; the model's witness of what the
+audit read in `getAncestor`/`handleFinderResult`): local chain with ids `n + 1000`, best block 100; the
+peer names id 7 at height 50 (≥ LastAnchor = 0); the finder hands on `(7, 50)` although its own main chain
+has id 1050 there. Only a lying sync peer can do this (`light_exchange_truthful`). -/
+theorem finder_id_hands_on_unchecked_id :
+    ¬ ∀ (best target : Nat) (localMain : Nat → Option Nat) (replies : List (Option (Nat × Nat)))
+        (probe : Nat → Probe) (h a : Nat),
+        finderId false best target localMain replies probe = .ancestor h a → localMain a = some h := by
+  intro hall
+  have := hall 100 200 (fun n => some (n + 1000)) [some (7, 50)] (fun _ => .diff) 7 50 (by decide)
+  simp at this
+
+private theorem finderId_height (fullOnly : Bool) (best target : Nat) (localMain : Nat → Option Nat)
+    (replies : List (Option (Nat × Nat))) (probe : Nat → Probe) (h a : Nat)
+    (hf : finderId fullOnly best target localMain replies probe = .ancestor h a) :
+    finder fullOnly best target (replies.map (·.map Prod.snd)) probe = .ancestor a := by
+  have full : ∀ la, (match fullscan probe la with
+      | .ancestor a => (match localMain a with | some h => FinderOutId.ancestor h a | none => .localErr)
+      | .noAncestor => .noAncestor | .alreadyDone => .alreadyDone | .timeout => .timeout
+      | .localErr => .localErr | .remoteErr => .remoteErr) = .ancestor h a → fullscan probe la = .ancestor a := by
+    intro la hx
+    split at hx <;> try simp at hx
+    rename_i a' hfs
+    split at hx <;> simp at hx
+    obtain ⟨_, rfl⟩ := hx
+    exact hfs
+  have hacc : ∀ la (r : Option (Nat × Nat)), lightAccept la (r.map Prod.snd) = lightAcceptId la r := by
+    intro la r
+    cases r with
+    | none => rfl
+    | some p => obtain ⟨x, y⟩ := p; rfl
+  unfold finderId at hf
+  unfold finder
+  simp only at hf
+  split at hf
+  · rename_i hfo; simp [hfo]; exact full _ hf
+  · rename_i hfo
+    simp only [hfo, if_false, Bool.false_eq_true]
+    rw [List.find?_map]
+    have : (lightAccept (lastAnchorOf best) ∘ fun x : Option (Nat × Nat) => Option.map Prod.snd x) =
+        lightAcceptId (lastAnchorOf best) := by
+      funext r; exact hacc _ r
+    rw [this]
+    split at hf
+    · simp at hf
+    · rename_i h' n' hfind
+      rw [hfind]
+      split at hf
+      · simp at hf
+      · rename_i ht
+        simp at hf; obtain ⟨rfl, rfl⟩ := hf
+        simp [ht]
+    · rename_i hfind
+      rw [hfind]
+      simp
+      exact full _ hf
+
+/-- **Highest shared block, stated over the real exchanges.** The full clause: *whenever the finder is told
+"no anchor shared" on its anchor list and goes on to probe single heights, the block it hands on is the
+highest block the two main chains share* — `answered` says whether the serving node's chain service
+replied to its own P2P module in time. -/
+def HighestOverExchange (answered : Bool) : Prop :=
+  ∀ (best target : Nat) (lm : Nat → Nat) (store main : Nat → Option Nat) (h a : Nat),
+    Chains best lm store main →
+    lightExchange answered best lm store main = some none →
+    finderId false best target (localOf best lm) [none] (probeX best lm main) = .ancestor h a →
+    a ≤ best ∧ h = lm a ∧ main a = some (lm a) ∧ ∀ j, a < j → j ≤ best → main j ≠ some (lm j)
+
+/-- `_partial`: **the clause holds when the exchange is answered** (every light-scan reply the finder gets is
+then truthful, `light_exchange_truthful`): ids of the own main chain, on the remote MAIN chain, and the
+highest such height. Side-branch copies on the serving node, the receivers, `hasSameHash` and the whole
+finder are inside the statement. -/
+theorem ancestor_highest_over_exchange_partial : HighestOverExchange true := by
+  intro best target lm store main h a hc hx hf
+  have hnone := (light_exchange_truthful best lm store main hc).2 hx
+  have hla : probeX best lm main (lastAnchorOf best) ≠ .same := by
+    intro hs
+    have hmem := lastAnchor_mem best
+    exact hnone _ hmem ((probeX_same_iff hc _ (anchors_le best _ hmem)).mp hs)
+  have hh := finderId_height false best target _ _ _ h a hf
+  have hmono : ∀ i j, i ≤ j → j ≤ best → probeX best lm main j = .same → probeX best lm main i = .same := by
+    intro i j hij hj hs
+    exact (probeX_same_iff hc i (by omega)).mpr (hc.mono i j hij hj ((probeX_same_iff hc j hj).mp hs))
+  obtain ⟨h1, h2, h3⟩ := fullscan_highest false best target _ (probeX best lm main) a
+    (fun i hi => probeX_ok hc i hi) (fun i hi => probeX_above i hi) hmono
+    (Or.inr ⟨by simp [lightAccept], hla⟩) hh
+  refine ⟨h1, ?_, (probeX_same_iff hc a h1).mp h2, ?_⟩
+  · -- the id handed on is the local one
+    unfold finderId at hf
+    simp [lightAcceptId] at hf
+    split at hf <;> try simp at hf
+    rename_i a' hfs
+    split at hf <;> simp at hf
+    rename_i h' hl
+    obtain ⟨rfl, rfl⟩ := hf
+    unfold localOf at hl
+    simp [h1] at hl
+    exact hl.symm
+  · intro j hj1 hj2 hs
+    exact h3 j hj1 hj2 ((probeX_same_iff hc j hj2).mpr hs)
+
+/-- **The full clause is FALSE on the pinned code when the exchange fails** (known finding
+C17-ancestor-failure-read-as-none): `AncestorReceiver` turns every status but OK — here ABORTED, the
+serving node's chain service did not answer in time — into the same `Ancestor: nil` as a genuine "none".
+Witness: chains of 521 and more blocks that agree up to height 515 (so the anchors 504, 488, … ARE shared);
+LastAnchor = 24; the finder is told "none", scans 0..23 and hands on height 23, not 515. -/
+theorem ancestor_not_highest_after_failed_exchange : ¬ HighestOverExchange false := by
+  intro hall
+  let lm : Nat → Nat := fun n => n + 1
+  let main : Nat → Option Nat := fun n => if n ≤ 515 then some (n + 1) else some (n + 2001)
+  let store : Nat → Option Nat := fun h =>
+    if 1 ≤ h ∧ h ≤ 516 then some (h - 1) else if 2517 ≤ h then some (h - 2001) else none
+  have hc : Chains 520 lm store main := by
+    constructor
+    · intro n; simp [lm]
+    · intro n h hm
+      simp only [main] at hm
+      split at hm
+      · simp at hm; subst hm; simp [store]; omega
+      · simp at hm; subst hm
+        have h1 : ¬ (n + 2001 ≤ 516) := by omega
+        have h2 : 2517 ≤ n + 2001 := by omega
+        simp [store, h1, h2]
+    · intro a n ha hs
+      simp only [store, lm] at hs
+      have h1 : 1 ≤ a + 1 ∧ a + 1 ≤ 516 ∨ ¬ (1 ≤ a + 1 ∧ a + 1 ≤ 516) := Classical.em _
+      rcases h1 with h1 | h1
+      · simp [h1] at hs; omega
+      · have h2 : ¬ 2517 ≤ a + 1 := by omega
+        simp [h2] at hs
+        omega
+    · intro i _; simp only [main]; split <;> rfl
+    · intro i j hij hj hm
+      simp only [main, lm] at hm ⊢
+      by_cases h5 : j ≤ 515
+      · have : i ≤ 515 := by omega
+        simp [this]
+      · simp [h5] at hm
+  have hla : lastAnchorOf 520 = 24 := by decide
+  have hx : lightExchange false 520 lm store main = some none := by
+    simp [lightExchange, serveAncestor, ancRecv]
+  have hp : ∀ i, i ≤ 23 → probeX 520 lm main i = .same := by
+    intro i hi
+    have h1 : i ≤ 520 := by omega
+    have h2 : i ≤ 515 := by omega
+    simp [probeX, localOf, probeOf, hbnRecv, h1, h2, main, lm]
+  have hf : finderId false 520 531 (localOf 520 lm) [none] (probeX 520 lm main) = .ancestor 24 23 := by
+    have hbs : binarySearch (probeX 520 lm main) 0 23 none = .ok (some 23) := by
+      rw [binarySearch]; simp [hp 11 (by omega)]
+      rw [binarySearch]; simp [hp 17 (by omega)]
+      rw [binarySearch]; simp [hp 20 (by omega)]
+      rw [binarySearch]; simp [hp 22 (by omega)]
+      rw [binarySearch]; simp [hp 23 (by omega)]
+      rw [binarySearch]; simp
+    simp [finderId, lightAcceptId, hla, fullscan, predU64, hbs, localOf, lm]
+  have := (hall 520 531 lm store main 24 23 hc hx hf).2.2.2 515 (by omega) (by omega)
+  simp [main, lm] at this
+
+/-- **A failed hash-by-no exchange is never taken for agreement, nor for disagreement.** Whatever the status
+and hash of the reply: the finder sees "same" only for an OK reply in time carrying the local id; a reply with
+any other status, or none in time, is an error of the search (not "different", which would send the binary
+search downwards and make it return a shared but not the highest block). -/
+theorem failed_probe_is_an_error (localHash : Option Nat) (timedOut : Bool) (st : WStatus) (h : Nat) :
+    (probeOf localHash (hbnRecv timedOut st h) = .same → timedOut = false ∧ st = .ok ∧ localHash = some h) ∧
+    (localHash.isSome → (timedOut = true ∨ st ≠ .ok) → probeOf localHash (hbnRecv timedOut st h) = .remoteErr) := by
+  constructor
+  · intro hs
+    unfold probeOf hbnRecv at hs
+    cases localHash with
+    | none => simp at hs
+    | some lh =>
+      cases timedOut with
+      | true => simp at hs
+      | false =>
+        cases st with
+        | ok =>
+          simp at hs
+          by_cases h0 : h = 0
+          · simp [h0] at hs
+          · simp [h0] at hs
+            by_cases he : h = lh
+            · simp [he]
+            · simp [he] at hs
+        | notFound => simp at hs
+        | failed => simp at hs
+  · intro hl hbad
+    cases localHash with
+    | none => simp at hl
+    | some lh =>
+      unfold probeOf hbnRecv
+      rcases hbad with rfl | hst
+      · simp
+      · cases timedOut with
+        | true => simp
+        | false =>
+          cases st with
+          | ok => exact absurd rfl hst
+          | notFound => simp
+          | failed => simp
+
+/-- **The hash receiver forwards at most what was asked for, once.** Over every list of partial responses:
+a `GetHashesRsp` without error carries at most the requested number of hashes, its `Count` is their number
+(the hash fetcher compares it with its request), and at most one message reaches the syncer. -/
+theorem hash_receiver_forwards_at_most_requested (reqCnt : Nat) (parts : List HPart) :
+    (∀ hs c, HRecvOut.rsp hs c ∈ (HRecv.feed ⟨reqCnt, [], .waiting⟩ parts).2 → hs.length ≤ reqCnt ∧ c = hs.length) ∧
+    hanswers (HRecv.feed ⟨reqCnt, [], .waiting⟩ parts).2 ≤ 1 := by
+  have := hfeed_spec parts ⟨reqCnt, [], .waiting⟩ (by simp [HInv])
+  simpa using this
+
+/-- Two parts, then a surplus part (test). -/
+example : (HRecv.feed ⟨3, [], .waiting⟩ [⟨false, true, [(11, true), (12, true)], true⟩, ⟨false, true, [(13, true)], false⟩,
+    ⟨false, true, [(14, true)], false⟩]).2 = [.nothing, .rsp [11, 12, 13] 3, .nothing] := by decide
+
+/-! ### Parent links across chunks -/
+
+/-- A block of a chunk reply that carries the id announced for height `n` carries, as its parent field, the id
+announced for `n - 1` — the ancestor's id when `n` is the first height. (Holds when ids bind headers AND the
+announced ids form a chain from the ancestor on.) -/
+def ParentBound (es : List Ev) (anc : Blk) : Prop :=
+  ∀ peer err blocks, Ev.chunk peer err blocks ∈ es → ∀ b, b ∈ blocks → ∀ n, Announced es n b.hash →
+    (n = anc.no + 1 → b.prev = anc.hash) ∧
+    (∀ h', anc.no + 1 < n → Announced es (n - 1) h' → b.prev = h')
+
+/-- **Each block handed over is a child of the previous one** (`_partial` under `HeightBound` and
+`ParentBound`): the first one a child of the ancestor, every later one a child of the block handed over
+just before it — across chunk boundaries, for every event list. The processor itself compares parents only
+inside a chunk (`chunk_linked`); the link across chunks comes from the announcement being a chain. -/
+theorem delivery_linked (cfg : Cfg) (anc : Blk) (target npeers : Nat) (es : List Ev)
+    (hb : HeightBound es) (hpb : ParentBound es anc) (k : Nat) (b : Blk)
+    (h : (delivered (run (St.init cfg anc target npeers) es).2)[k]? = some b) :
+    (k = 0 → b.prev = anc.hash) ∧
+    (∀ a, 0 < k → (delivered (run (St.init cfg anc target npeers) es).2)[k - 1]? = some a → b.prev = a.hash) := by
+  obtain ⟨hno, hann⟩ := delivery_order cfg anc target npeers es hb k b h
+  -- the delivered block is a block of some chunk reply
+  have hsrc := run_src (fun b => ∃ peer err blocks, Ev.chunk peer err blocks ∈ es ∧ b ∈ blocks)
+    (init_src _ cfg anc target npeers) (fun p e bl hm b hb => ⟨p, e, bl, hm, hb⟩) b (List.mem_of_getElem? h)
+  obtain ⟨peer, err, blocks, hm, hbm⟩ := hsrc
+  obtain ⟨h1, h2⟩ := hpb peer err blocks hm b hbm b.no hann
+  constructor
+  · intro hk; subst hk; exact h1 (by omega)
+  · intro a hk ha
+    obtain ⟨hano, haann⟩ := delivery_order cfg anc target npeers es hb (k - 1) a ha
+    apply h2 a.hash (by omega)
+    have : b.no - 1 = a.no := by omega
+    rw [this]; exact haann
+
+/-- The hypotheses are satisfiable and the conclusion is about real deliveries (test): two tasks of one hash
+each, answered in two chunks; the second block's parent is the first block's id. -/
+example :
+    let es : List Ev := [.hashSet 5 [11, 12], .sched, .chunk 0 false [⟨11, 10, 5⟩], .chunk 1 false [⟨12, 11, 6⟩],
+                         .addRsp 5 11 false false]
+    delivered (run (St.init ⟨1, 2, 2, 2⟩ ⟨10, 9, 4⟩ 6 2) es).2 = [⟨11, 10, 5⟩, ⟨12, 11, 6⟩] := by
+  decide
+
+/-- **Without the chained announcement the pinned code hands over a block that is not a child of the previous
+one — with genuine blocks only** (known finding C17-unlinked-announcement-delivered). Ancestor id 10 at height
+4; the sync peer announces ids 11, 12 for heights 5, 6, where 12 is a genuine height-6 block of ANOTHER branch
+(parent 77); one hash per task. Heights are the announced ones (`HeightBound` holds), both chunks are valid,
+`popFromConnQueue` compares heights only: 12/77/6 is handed over right after 11/10/5. -/
+theorem delivery_linked_needs_chained_announcement :
+    ¬ ∀ (cfg : Cfg) (anc : Blk) (target npeers : Nat) (es : List Ev), HeightBound es →
+        ∀ k a b, (delivered (run (St.init cfg anc target npeers) es).2)[k]? = some a →
+          (delivered (run (St.init cfg anc target npeers) es).2)[k + 1]? = some b → b.prev = a.hash := by
+  intro hall
+  let es : List Ev := [.hashSet 5 [11, 12], .sched, .chunk 0 false [⟨11, 10, 5⟩], .chunk 1 false [⟨12, 77, 6⟩],
+                       .addRsp 5 11 false false]
+  have hb : HeightBound es := by
+    intro peer err blocks hm b hbm n hann
+    obtain ⟨st, hs, i, hmem, hi, hsum⟩ := hann
+    simp [es] at hmem
+    obtain ⟨rfl, rfl⟩ := hmem
+    simp [es] at hm
+    rcases hm with ⟨_, _, rfl⟩ | ⟨_, _, rfl⟩
+    · simp at hbm; subst hbm
+      match i, hi with
+      | 0, _ => simp at hsum; omega
+      | 1, hi => simp at hi
+      | i + 2, hi => simp at hi
+    · simp at hbm; subst hbm
+      match i, hi with
+      | 0, hi => simp at hi
+      | 1, _ => simp at hsum; omega
+      | i + 2, hi => simp at hi
+  have := hall ⟨1, 2, 2, 2⟩ ⟨10, 9, 4⟩ 6 2 es hb 0 ⟨11, 10, 5⟩ ⟨12, 77, 6⟩ (by decide) (by decide)
+  simp at this
 
 end Aergo.Props.C17
